@@ -33,15 +33,6 @@ Definition is_ok (r : res unit) : bool := match r with Ok _ => true | _ => false
 Definition removes (pid : Z) (o : mop) (p : part) : bool :=
   match o with MRemove q => (q =? pid) && is_ok (pa_res p) | _ => false end.
 
-(* the counter sequences of a PID, one per lifetime: a successful RemoveElementaryStream(pid) ends one *)
-Fixpoint lifetimes (pid : Z) (evs : list (mop * part)) (cur : list Z) : list (list Z) :=
-  match evs with
-  | [] => [cur]
-  | (o, p) :: r =>
-      let cur' := cur ++ payload_ccs pid (muxer_pkts o p) in
-      if removes pid o p then cur' :: lifetimes pid r [] else lifetimes pid r cur'
-  end.
-
 (* ---------------- the domain the properties quantify over ---------------- *)
 
 (* S1: the writer-internal members of the caller's adaptation field are at their zero value on entry *)
